@@ -39,7 +39,7 @@ Deliverables, all written into the directory {wt}/SEED (create it):
   - patch.diff : `git -C {wt} diff -- src` output of your change (source only, no test edits)
   - demo.py    : a small standalone program using only the public API that exits 0 and prints PASS when the property holds
                  and exits 1 and prints FAIL (with the observed values) when it is violated. It must PASS on the pristine tree
-                 (check with `git -C {wt} stash; ... ; git -C {wt} stash pop`) and FAIL with your change applied.
+                 (check with `git -C {wt} diff -- src > /tmp/p-{pid}.diff; git -C {wt} apply -R /tmp/p-{pid}.diff; ...; git -C {wt} apply /tmp/p-{pid}.diff` - do NOT use git stash: the stash is shared between worktrees) and FAIL with your change applied.
   - meta.json  : {{"property": "{pid}", "summary": "<one line: what was changed>", "needs": "<what is needed for it to manifest>",
                  "files": [...], "tests_pass": true, "demo_pass_without": true, "demo_fail_with": true}}
 Leave the change applied in the worktree when you finish. In your final answer, report the summary, what it needs to manifest,
